@@ -40,3 +40,21 @@ pub struct Type { pub path: Path, pub type_params: Vec<TypeParameter>, pub type_
 pub struct PortableType { pub id: u32, pub ty: Type }
 
 pub struct PortableRegistry { pub types: Vec<PortableType> }
+
+// ASSUMED contracts of scale-info's `Path` accessors (read from scale-info 2.11.5 src/ty/path.rs:
+// `namespace` = all segments but the last, or empty; `ident` = a clone of the last segment; `is_empty`).
+// The code under contract as shipped does not call them; they are modelled so that edits which do are decided.
+impl Path {
+    #[verifier::external_body]
+    pub fn namespace(&self) -> (r: &[String])
+        ensures r@ == (if self.segments@.len() > 0 { self.segments@.drop_last() } else { Seq::<String>::empty() })
+    { unimplemented!() }
+
+    #[verifier::external_body]
+    pub fn ident(&self) -> (r: Option<String>)
+        ensures self.segments@.len() == 0 ==> r is None, self.segments@.len() > 0 ==> r is Some && r->0@ == self.segments@.last()@
+    { unimplemented!() }
+
+    #[verifier::external_body]
+    pub fn is_empty(&self) -> (r: bool) ensures r == (self.segments@.len() == 0) { unimplemented!() }
+}
